@@ -3,6 +3,7 @@ import AdaptixModel.Gen.Quote
 import AdaptixModel.Gen.Names
 import AdaptixModel.Gen.Skeleton
 import AdaptixModel.Gen.CtorCall
+import AdaptixModel.Gen.Broach
 import AdaptixModel.Generated.C19Sites
 
 /-! JSON ops of the C19 driver.  Strings travel as arrays of code points. -/
@@ -66,28 +67,57 @@ def tableFn (table : List (Str × Str)) : Str → Str :=
 structure NsState where
   ns : Namespace
   out : List Json
+  /-- `GenState._prefix_counter` -/
+  counters : List (Str × Nat) := []
+
+/-- a broaching plan as the harness describes it (only what decides names, see Gen/Broach.lean) -/
+partial def decPlan (j : Json) : Except String Plan := do
+  match ← fieldStr j "e" with
+  | "param" => return .param (← fieldS j "name")
+  | "const" => return .const (← fieldBool j "literal") (← fieldNat j "obj")
+  | "func" =>
+    let nm ← field j "name"
+    let name ← (if nm.isNull then pure none else do pure (some (← decStr nm)))
+    let args ← (← fieldArr j "args").mapM decPlan
+    return .func (← fieldBool j "transparent") (← fieldBool j "literal_factory") name (← fieldNat j "obj") args
+  | "accessor" =>
+    let c ← field j "custom"
+    let custom ← (if c.isNull then pure none else do pure (some (← asNat c)))
+    return .accessor custom (← decPlan (← field j "target"))
+  | k => throw s!"bad plan element {k}"
+
+def encReg : Reg → Json
+  | .mangled raw obj => Json.mkObj [("k", "mangled"), ("raw", encStr raw), ("obj", natJ obj)]
+  | .nextId pre obj => Json.mkObj [("k", "next_id"), ("prefix", encStr pre), ("obj", natJ obj)]
 
 def nsStep (builtins : List Str) (st : NsState) (j : Json) : Except String NsState := do
   let k ← fieldStr j "k"
   match k with
   | "const" =>
     let (ok, ns') := st.ns.tryAddConstant builtins (← fieldS j "name") (← fieldNat j "obj")
-    return { ns := ns', out := st.out ++ [Json.bool ok] }
+    return { st with ns := ns', out := st.out ++ [Json.bool ok] }
   | "outer" =>
     let (ok, ns') := st.ns.tryAddOuterConstant builtins (← fieldS j "name") (← fieldNat j "obj")
-    return { ns := ns', out := st.out ++ [Json.bool ok] }
+    return { st with ns := ns', out := st.out ++ [Json.bool ok] }
   | "var" =>
     let (ok, ns') := st.ns.tryRegisterVar builtins (← fieldS j "name")
-    return { ns := ns', out := st.out ++ [Json.bool ok] }
+    return { st with ns := ns', out := st.out ++ [Json.bool ok] }
   | "mangle" =>
     match registerMangled builtins st.ns (← fieldS j "base") (← fieldNat j "obj") 10000 with
-    | some (n, ns') => return { ns := ns', out := st.out ++ [encStr n] }
+    | some (n, ns') => return { st with ns := ns', out := st.out ++ [encStr n] }
     | none => return { st with out := st.out ++ [Json.null] }
   | "mangle_raw" =>
     -- `register_mangled` on raw text: sanitise-or-underscore first (`idcont` = identifier characters of the text)
     let ic ← fieldS j "idcont"
     match registerMangledRaw (oracle ic) pyKeywords builtins st.ns (← fieldS j "base") (← fieldNat j "obj") 10000 with
-    | some (n, ns') => return { ns := ns', out := st.out ++ [encStr n] }
+    | some (n, ns') => return { st with ns := ns', out := st.out ++ [encStr n] }
+    | none => return { st with out := st.out ++ [Json.null] }
+  | "next_id" =>
+    -- `GenState.register_next_id(prefix, obj)`: `prefix_<counter>` as the BASIS of `register_mangled`
+    let ic ← fieldS j "idcont"
+    match registerNextId (oracle ic) pyKeywords builtins { ns := st.ns, counters := st.counters }
+        (← fieldS j "prefix") (← fieldNat j "obj") 10000 with
+    | some (n, g) => return { ns := g.ns, counters := g.counters, out := st.out ++ [encStr n] }
     | none => return { st with out := st.out ++ [Json.null] }
   | _ => throw s!"bad namespace op {k}"
 
@@ -185,12 +215,42 @@ def handle : Protocol.Handler := fun j => do
     let init : NsState := { ns := { occupied := occ, allowBuiltins := allow }, out := [] }
     let st ← (← fieldArr j "ops").foldlM (nsStep Adaptix.Generated.C19.builtinNames) init
     return listJ st.out
+  | "broach" =>
+    -- the names `BuiltinBroachingCodeGenerator.produce_code` allocates for a plan: the requests in generation order,
+    -- the name handed out for each, and the constants of the final namespace (insertion order) with their objects
+    let plan ← decPlan (← field j "plan")
+    let occ ← (← fieldArr j "occupied").mapM decStr
+    let outer ← (← fieldArr j "outer").mapM decStr
+    let ic ← fieldS j "idcont"
+    let regs := planRegs plan
+    match planNames (oracle ic) pyKeywords Adaptix.Generated.C19.builtinNames occ (outer.map (fun n => (n, 0))) plan
+        (10000 + regs.length) with
+    | none => return Json.null
+    | some (names, g) => return Json.mkObj [("regs", listJ (regs.map encReg)), ("names", listJ (names.map encStr)),
+        ("constants", listJ (g.ns.constants.map (fun e => listJ [encStr e.1, natJ e.2])))]
+  | "alloc" =>
+    -- the same for a bare list of requests (the harness derives it from the recipe of a converter)
+    let regs ← (← fieldArr j "regs").mapM (fun r => do
+      match ← fieldStr r "k" with
+      | "mangled" => return Reg.mangled (← fieldS r "raw") (← fieldNat r "obj")
+      | "next_id" => return Reg.nextId (← fieldS r "prefix") (← fieldNat r "obj")
+      | k => throw s!"bad request {k}")
+    let occ ← (← fieldArr j "occupied").mapM decStr
+    let outer ← (← fieldArr j "outer").mapM decStr
+    let ic ← fieldS j "idcont"
+    match allocNames (oracle ic) pyKeywords Adaptix.Generated.C19.builtinNames regs
+        { ns := { occupied := occ, outer := outer.map (fun n => (n, 0)) } } (10000 + regs.length) with
+    | none => return Json.null
+    | some (names, g) => return Json.mkObj [("names", listJ (names.map encStr)),
+        ("constants", listJ (g.ns.constants.map (fun e => listJ [encStr e.1, natJ e.2])))]
   | "specs" =>
     return Json.mkObj [("loader", encSpec Adaptix.Generated.C19.loaderSpec),
       ("dumper", encSpec Adaptix.Generated.C19.dumperSpec),
       ("separated_loader", Json.bool (Adaptix.Generated.C19.loaderSpec.separated Adaptix.Generated.C19.builtinNames)),
       ("separated_dumper", Json.bool (Adaptix.Generated.C19.dumperSpec.separated Adaptix.Generated.C19.builtinNames)),
       ("n_sites", natJ Adaptix.Generated.C19.sites.length),
+      ("next_id_prefixes", listJ (Adaptix.Generated.C19.nextIdPrefixes.map encStr)),
+      ("next_id_through_mangling", Json.bool Adaptix.Generated.C19.nextIdThroughMangling),
       ("unsafe_sites", listJ ((Adaptix.Generated.C19.sites.filter (fun s => !s.safe)).map
           (fun s => Json.str s!"{s.file}:{s.line} {s.expr}")))]
   | _ => throw s!"unknown op {op}"
